@@ -417,7 +417,8 @@ impl RunState {
     }
 
     fn jsr(&mut self, instr: u16) {
-        *self.reg_mut(7) = self.pc;
+        // Link register is written last: `JSRR R7` must jump to the old value of R7
+        let return_addr = self.pc;
         if instr & 0x800 == 0 {
             // reg
             let br = (instr >> 6) & 0b111;
@@ -426,6 +427,7 @@ impl RunState {
             // offs
             self.pc = self.pc.wrapping_add(Self::s_ext(instr, 11))
         }
+        *self.reg_mut(7) = return_addr;
     }
 
     fn ld(&mut self, instr: u16) {
